@@ -115,7 +115,13 @@ KindsI == <<<<>>, <<<<20, RA>>>>, <<<<22, RC>>>>>>
 NI == IF Wide THEN 6 ELSE 4
 CasesI == {[st |-> Stream(Flat([i \in 1..NI |-> T(i, TRUE, 0, KindsI[q[i]])]), g), op |-> Opt(100, 0)] : q \in [1..NI -> 1..3], g \in (IF Wide THEN 1..4 ELSE {1, 2, 3})}
 
-Cases(fam) == CASE fam = "I" -> CasesI [] fam = "S" -> CasesS [] fam = "P" -> CasesP [] fam = "E" -> CasesEOK [] fam = "A" -> CasesA [] fam = "H" -> CasesH [] fam = "C" -> CasesC
+\* M: the target page in every magazine 1..8 (magazine 8 travels as 0), selected by the option or auto-detected, with
+\* the same page number transmitted in the next magazine
+TM(mag, own, rows) == <<Hdr(mag, 2, 3, TRUE, TRUE, 0, own)>> \o [i \in DOMAIN rows |-> Row(mag, rows[i][1], rows[i][2], own)]
+CasesM == UNION {{[st |-> Stream(TM(m, 1, <<<<20, RA>>>>) \o TM((m % 8) + 1, 0, <<<<20, RC>>>>) \o TM(m, 2, <<<<22, RC>>>>) \o TM(m, 3, <<>>), g),
+                   op |-> Opt(pg, 0)] : g \in {1, 3}, pg \in {0, m * 100 + 23}} : m \in 1..8}
+
+Cases(fam) == CASE fam = "M" -> CasesM [] fam = "I" -> CasesI [] fam = "S" -> CasesS [] fam = "P" -> CasesP [] fam = "E" -> CasesEOK [] fam = "A" -> CasesA [] fam = "H" -> CasesH [] fam = "C" -> CasesC
 
 ---------------------------------------------------------------------------
 (* truth by construction: units tagged own = k belong to target instance k *)
